@@ -38,6 +38,8 @@ CFG = {
                   "executes the regenerated lines; an unknown text sets Env.unknown): advance_body_eq_model, showCursor_body_eq_model, sixel_body_eq_model, clip_body_eq_model, unchanged_body_eq_model, reposition_body_eq_model, "
                   "hyperlink_body_eq_model, glyph_body_eq_model, written_cell_body_eq_model (the whole written-cell path of render() run from the text = tokens / pen / flags / dirty / last of the model), "
                   "render_written_branch_eq_interp / render_sixel_branch_eq_interp / render_unchanged_branch_eq_interp (every branch of the model's cell loop at a non-skipped cell continues with the interpreted state), "
+                  "fg_body_eq_model / bg_body_eq_model / ul_body_eq_model / ulStyle_body_eq_model / macro_atoms_are_blocks (the colour and underline blocks line by line: tagged switches, ps / asIndex, writes by sequence name), "
+                  "cell_loop_order / row_loop_order / blocks_are_the_loop_body (the glue order of the interpreted blocks = the order of the statements the interpreter reads), "
                   "render_frame_body_eq_model (pointer shape, trailing OSC 8 close, cursor show), nullLoop_body_eq_model (the two nulling loops, executed with break and the dirty extension), "
                   "Lemmas/RenderLoop.goRow_eq (the literal index loop with col += skip and in-place nulling = the model's list recursion with skip/track), and on top of them render_row_body_eq_model / render_body_eq_model / "
                   "render_frame_eq_interp / flush_body_eq_model: render() as a whole — every statement executed from the extracted text, the blocks glued in source order and iterated with the loops' own increments — computes "
@@ -49,7 +51,7 @@ CFG = {
                   "PrintTruncate; a space has width 1; a visible cursor is inside the screen at Render (Window.ShowCursor does not clip: Witness/C11ShowCursor); after a size "
                   "change the terminal shows a well-formed grid. On a clustering terminal additionally: no two neighbouring shown cells join (NoJoinNeighbours; render() writes neighbouring cells back to back — F112d; a CUP between them was evaluated and rejected: it does not help on terminals that cluster against the cell left of the cursor). "
                   "F111c (Wrap put the halves of one cluster — a flag beginning a later Segment — into two cells, which such a terminal shows as one glyph; found by the op-level stream) is fixed in /repo 1f9a9ad. app_history_displays is stated over the plain terminal; app_history_displays_clustering (Props/C01AppCluster) is its form for the clustering terminal, with RunNoJoin (NoJoinNeighbours of the screen at every frame) as the extra hypothesis. Validated by correspondence only: "
-                  "that the ORDER in which the interpreted blocks of render() follow each other (hand-written glue iterI / rowsI / renderBodyI, in source order) and the inner lines of the colour, attribute and underline blocks (executed as wholes) equal the Go code beyond their pinned statement structure "
+                  "that the hand-written glue iterI / rowsI / renderBodyI (which interpreted block follows which; tied to the source by cell_loop_order and the pins, not by executing the loop body as one block) is the Go control flow "
                   "— every statement of the cell loop, the nulling loops included, is executed from the extracted text (Props/C01Body) and the loop frame is proved (goRow_eq). Screens WITH image cells: the one-frame theorem is proved (frame_displays_images) from a terminal that shows the previous frame everywhere; "
                   "a history-level statement through frames with image cells (the terminal then agrees with last only outside the image cells) is open; app_history_displays assumes no image cells (the draw ops of Model.App cannot make one). Placement loops of render() are C20's. Spec.Display is a model of a standards-conforming terminal, not a physical one.",
     "assumptions": ["terminal width of a raw-printed grapheme equals Vaxis's characterWidth under the same capability set (C07 width method)",
